@@ -76,7 +76,12 @@ func (i *argumentsPropIter) next() (propIterItem, iterNextFunc) {
 		return propIterItem{}, nil
 	}
 	if prop, ok := item.value.(*mappedProperty); ok {
-		item.value = *prop.v
+		if prop.writable && prop.enumerable && prop.configurable {
+			item.value = *prop.v
+		} else {
+			// not a plain value: let the consumer look up the attributes with getOwnProp()
+			item.value = nil
+		}
 	}
 	return item, i.next
 }
@@ -85,6 +90,27 @@ func (a *argumentsObject) iterateStringKeys() iterNextFunc {
 	return (&argumentsPropIter{
 		wrapped: a.baseObject.iterateStringKeys(),
 	}).next
+}
+
+func (a *argumentsObject) stringKeys(all bool, accum []Value) []Value {
+	if all {
+		return a.baseObject.stringKeys(all, accum)
+	}
+	a.ensurePropOrder()
+	for _, k := range a.propNames {
+		switch prop := a.values[k].(type) {
+		case *valueProperty:
+			if !prop.enumerable {
+				continue
+			}
+		case *mappedProperty:
+			if !prop.enumerable {
+				continue
+			}
+		}
+		accum = append(accum, stringValueFromRaw(k))
+	}
+	return accum
 }
 
 func (a *argumentsObject) defineOwnPropertyStr(name unistring.String, descr PropertyDescriptor, throw bool) bool {
